@@ -477,6 +477,12 @@ pub fn gen_program(rng: &mut Rng, g: &ProgGen) -> Program {
     let d = match rng.below(4) { 0 => format!("{}{}", names[0], names[1]), 1 => format!("{}{}", names[1], names[0]), 2 => names[0].to_uppercase(), _ => format!("{}@", names[0]) };
     if !names.contains(&d) { names.push(d); }
   }
+  // a name that coincides with a word the implementation uses itself (mined from its string literals)
+  if !names.is_empty() && rng.chance(1, 12) {
+    let t = rng.pick(crate::dict::all()).clone();
+    let d = format!("@{}", t.trim_start_matches('@'));
+    if d.len() > 1 && !names.contains(&d) { let i = rng.below(names.len()); names[i] = d; }
+  }
   let mut alias_entries: Vec<Entry> = vec![];
   for name in &names {
     let nd = rng.range(1, 3);
